@@ -1,11 +1,13 @@
 //go:build verif
 
 // Black-box harness for internal/difflib (exported API only): `dl <a> <b>` lines, each letter of a
-// and b is one sequence element ("-" = empty sequence).
+// and b is one sequence element ("-" = empty sequence); `dll <a> <b>`: the elements are whole lines
+// (hex, comma-separated).
 package difflib_test
 
 import (
 	"bufio"
+	"encoding/hex"
 	"fmt"
 	"os"
 	"strings"
@@ -21,6 +23,27 @@ func seq(s string) []string {
 	out := make([]string, len(s))
 	for i := 0; i < len(s); i++ {
 		out[i] = s[i : i+1]
+	}
+	return out
+}
+
+// lines decodes a sequence of whole lines: "-" = empty sequence, otherwise comma-separated elements,
+// each hex-encoded ("~" = the empty line).
+func lines(s string) []string {
+	if s == "-" {
+		return []string{}
+	}
+	var out []string
+	for _, e := range strings.Split(s, ",") {
+		if e == "~" {
+			out = append(out, "")
+			continue
+		}
+		b, err := hex.DecodeString(e)
+		if err != nil {
+			panic(err)
+		}
+		out = append(out, string(b))
 	}
 	return out
 }
@@ -58,6 +81,10 @@ func TestVerifDifflib(t *testing.T) {
 		f := strings.Fields(sc.Text())
 		if len(f) == 3 && f[0] == "dl" {
 			a, b := seq(f[1]), seq(f[2])
+			fmt.Fprintf(w, "dl full=%s groups=%s\n", groups(a, b, 1<<20), groups(a, b, 3))
+		} else if len(f) == 3 && f[0] == "dll" {
+			// the elements are real lines (arbitrary byte strings), not single letters
+			a, b := lines(f[1]), lines(f[2])
 			fmt.Fprintf(w, "dl full=%s groups=%s\n", groups(a, b, 1<<20), groups(a, b, 3))
 		} else if len(f) == 3 && f[0] == "range" {
 			var s, e int
